@@ -22,13 +22,20 @@ enum { NOP = 0, PUSH_BYTE = 1, PUSH_SHORT = 3, ADD = 6, NEXT = 25, COPY_NEXT = 2
 
 static void gen_action(Rng &r, unsigned len, bool subst, Bytes &a, unsigned numUser) {
     for (unsigned s = 0; s < len; ++s) {
+        if (subst && r.chance(1, 6)) {      // a new slot inserted before input slot s (does not consume input)
+            w8(a, INSERT); w8(a, PUT_GLYPH8); w8(a, r.below(NGLYPH_USED));
+            // inside the insert block the loader's slot reference is one behind: valid refs are [1-s, len-s]
+            if (r.chance(1, 2)) { w8(a, ASSOC); w8(a, 1); w8(a, u8(i64(1 + int(r.below(len)) - int(s)))); }
+            if (r.chance(1, 4)) { w8(a, PUSH_BYTE); w8(a, u8(i64(int(r.below(len)) - int(s)))); w8(a, ATTR_SET_SLOT); w8(a, 2); }
+            w8(a, NEXT);
+        }
         unsigned nops = r.below(4);
         bool deleted = false;
         for (unsigned k = 0; k < nops && !deleted; ++k) {
             u32 c = r.below(100);
             int rel_lo = -int(s), rel_hi = int(len - 1 - s);
             int rel = rel_lo + int(r.below(u32(rel_hi - rel_lo + 1)));
-            if (r.chance(1, 10)) rel = int(r.below(7)) - 3;               // sometimes outside the rule
+            if (r.chance(1, 80)) rel = int(r.below(7)) - 3;               // rarely outside the rule (mostly rejected by the loader)
             if (c < 22) { w8(a, PUSH_BYTE); w8(a, u8(i64(rel))); w8(a, ATTR_SET_SLOT); w8(a, 2); }                 // attach.to = slot(rel)
             else if (c < 30) { w8(a, PUSH_BYTE); w8(a, r.below(60)); w8(a, ATTR_SET); w8(a, 3 + r.below(2)); }      // attach.at x/y
             else if (c < 38) { w8(a, PUSH_SHORT); w16(a, r.chance(1, 8) ? 0x7FFF : r.below(2000)); w8(a, ATTR_SET); w8(a, r.below(2)); }   // advance x/y
@@ -36,9 +43,9 @@ static void gen_action(Rng &r, unsigned len, bool subst, Bytes &a, unsigned numU
             else if (c < 52 && subst) { w8(a, PUT_GLYPH8); w8(a, r.below(NGLYPH_USED)); }
             else if (c < 60 && subst) { w8(a, PUT_COPY); w8(a, u8(i64(rel))); }
             else if (c < 70 && subst) { if (r.chance(1, 2)) { w8(a, PUT_COPY); w8(a, 0); } w8(a, DELETE); deleted = true; }
-            else if (c < 78 && subst) { w8(a, INSERT); w8(a, PUT_GLYPH8); w8(a, r.below(NGLYPH_USED)); if (r.chance(1, 2)) { w8(a, ASSOC); w8(a, 1); w8(a, u8(i64(rel))); } w8(a, NEXT); --s; if (r.chance(2, 3)) ++s; }
+            else if (c < 78 && subst) { w8(a, PUSH_BYTE); w8(a, r.below(2)); w8(a, ATTR_SET); w8(a, 17); }
             else if (c < 86 && subst) { unsigned n = 1 + r.below(3); w8(a, ASSOC); w8(a, n); for (unsigned q = 0; q < n; ++q) w8(a, u8(i64(rel_lo + int(r.below(u32(rel_hi - rel_lo + 1)))))); }
-            else if (c < 92 && numUser) { w8(a, PUSH_BYTE); w8(a, r.below(100)); w8(a, IATTR_SET); w8(a, 55); w8(a, r.below(numUser + 1)); }
+            else if (c < 92 && numUser) { w8(a, PUSH_BYTE); w8(a, r.below(100)); w8(a, IATTR_SET); w8(a, 55); w8(a, r.chance(1, 30) ? numUser : r.below(numUser)); }
             else if (c < 96) { w8(a, PUSH_BYTE); w8(a, r.below(3)); w8(a, ATTR_SET); w8(a, 17); }                   // insert attr
             else { w8(a, PUSH_SLOT_ATTR); w8(a, r.below(2)); w8(a, u8(i64(rel))); w8(a, PUSH_BYTE); w8(a, 3); w8(a, ADD); w8(a, ATTR_SET); w8(a, 0); }
         }
@@ -99,10 +106,27 @@ static Bytes build_pass(const PassDef &pd, size_t base) {
     return p;
 }
 
-void silf_override(Store &st, const Fault &f) {
-    Rng r(u64(f.a.empty() ? 1 : f.a[0]));
-    auto mx = st.tables.find(mktag("maxp")); if (mx == st.tables.end() || mx->second.size() < 6) return;
-    unsigned nglyphs = be16(&mx->second[4]); if (nglyphs <= NGLYPH_USED + 1) return;
+// program encoding in Fault.a (OVR_SILFPROG): [np, nsub, numUser, ijust_is_np, rtl, then per pass: maxloop, nrules, per rule: len, match[len], conslen, cons[conslen], alen, action[alen]]
+static void encode_prog(const std::vector<PassDef> &passes, unsigned nsub, unsigned numUser, bool ijust_np, bool rtl, std::vector<i64> &a) {
+    a = {i64(passes.size()), i64(nsub), i64(numUser), ijust_np ? 1 : 0, rtl ? 1 : 0};
+    for (auto &pd : passes) { a.push_back(pd.maxloop); a.push_back(i64(pd.rules.size()));
+        for (auto &rd : pd.rules) { a.push_back(i64(rd.match.size())); for (unsigned g : rd.match) a.push_back(g); a.push_back(i64(rd.constraint.size())); for (u8 c : rd.constraint) a.push_back(c); a.push_back(i64(rd.action.size())); for (u8 c : rd.action) a.push_back(c); } }
+}
+static bool decode_prog(const std::vector<i64> &a, std::vector<PassDef> &passes, unsigned &nsub, unsigned &numUser, bool &ijust_np, bool &rtl) {
+    size_t i = 0; auto get = [&](i64 &v) { if (i >= a.size()) return false; v = a[i++]; return true; };
+    i64 np, v; if (!get(np) || np < 1 || np > 16) return false; if (!get(v)) return false; nsub = unsigned(v < 0 ? 0 : v > np ? np : v); if (!get(v)) return false; numUser = unsigned(v & 7);
+    if (!get(v)) return false; ijust_np = v != 0; if (!get(v)) return false; rtl = v != 0;
+    for (i64 p = 0; p < np; ++p) { PassDef pd; i64 nr; if (!get(v)) return false; pd.maxloop = unsigned(v & 0xFF); if (!get(nr) || nr < 1 || nr > 32) return false;
+        for (i64 k = 0; k < nr; ++k) { RuleDef rd; i64 len; if (!get(len) || len < 1 || len > 8) return false; for (i64 q = 0; q < len; ++q) { if (!get(v)) return false; rd.match.push_back(1 + unsigned(u64(v - 1) % ALPHA)); }
+            i64 cl; if (!get(cl) || cl < 0 || cl > 64) return false; for (i64 q = 0; q < cl; ++q) { if (!get(v)) return false; rd.constraint.push_back(u8(v)); }
+            i64 al; if (!get(al) || al < 0 || al > 400) return false; for (i64 q = 0; q < al; ++q) { if (!get(v)) return false; rd.action.push_back(u8(v)); }
+            pd.rules.push_back(rd); }
+        passes.push_back(pd); }
+    return true;
+}
+
+static void gen_prog(u64 seed, std::vector<i64> &out) {
+    Rng r(seed);
     unsigned np = 1 + r.below(4), nsub = r.below(np + 1); if (r.chance(1, 2) && nsub == 0) nsub = 1;
     unsigned numUser = r.below(3);
     std::vector<PassDef> passes;
@@ -113,16 +137,33 @@ void silf_override(Store &st, const Fault &f) {
             RuleDef rd; unsigned len = 1 + r.below(3);
             for (unsigned q = 0; q < len; ++q) rd.match.push_back(1 + r.below(r.chance(1, 2) ? 3 : ALPHA));
             gen_action(r, len, i < nsub, rd.action, numUser);
-            if (r.chance(1, 5)) { rd.constraint = {PUSH_SLOT_ATTR, 0, 0, PUSH_SHORT, 0x01, 0x00, 22 /*GTR*/, POP_RET}; }
+            if (!getenv("SYN_NOCONS") && r.chance(1, 5)) { rd.constraint = {PUSH_SLOT_ATTR, 0, 0, PUSH_SHORT, 0x01, 0x00, 22 /*GTR*/, POP_RET}; }
             pd.rules.push_back(rd);
         }
         passes.push_back(pd);
     }
+    encode_prog(passes, nsub, numUser, r.chance(1, 2), r.chance(1, 4), out);
+}
+
+void silf_override(Store &st, const Fault &f) {
+    std::vector<i64> prog;
+    if (f.kind == "OVR_SILFPROG") prog = f.a; else gen_prog(u64(f.a.empty() ? 1 : f.a[0]), prog);
+    std::vector<PassDef> passes; unsigned nsub = 0, numUser = 0; bool ijust_np = false, rtl = false;
+    if (!decode_prog(prog, passes, nsub, numUser, ijust_np, rtl)) return;
+    const unsigned np = unsigned(passes.size());
+    auto mx = st.tables.find(mktag("maxp")); if (mx == st.tables.end() || mx->second.size() < 6) return;
+    unsigned nglyphs = be16(&mx->second[4]); if (nglyphs <= NGLYPH_USED + 1) return;
+    if (getenv("SYN_DUMP")) for (unsigned i = 0; i < np; ++i) { fprintf(stderr, "pass %u (%s) maxloop %u\n", i, i < nsub ? "subst" : "pos", passes[i].maxloop); for (auto &rd : passes[i].rules) { fprintf(stderr, "  rule match"); for (unsigned g : rd.match) fprintf(stderr, " g%u", g); fprintf(stderr, " action:"); for (u8 b : rd.action) fprintf(stderr, " %d", int(b)); fprintf(stderr, "%s\n", rd.constraint.empty() ? "" : " +constraint"); } }
     Bytes s;
     w16(s, nglyphs - 1); w16(s, 0); w16(s, 0);
-    w8(s, np); w8(s, 0); w8(s, nsub); w8(s, r.chance(1, 2) ? nsub : np); w8(s, 0xFF); w8(s, 0); w8(s, 0); w8(s, 0);
-    w8(s, 0); w8(s, 1); w8(s, 2); w8(s, 3); w8(s, 0); w8(s, 0);
-    w16(s, 0); w8(s, numUser); w8(s, 0); w8(s, r.chance(1, 4) ? 2 : 1); w8(s, 0); w8(s, 0); w8(s, 0); w8(s, 0); w8(s, 0); w8(s, 0); w8(s, 0);
+    w8(s, np); w8(s, 0); w8(s, nsub); w8(s, ijust_np ? np : nsub); w8(s, 0xFF); w8(s, 0); w8(s, 0); w8(s, 0);
+    // the four glyph-attribute indices (pseudo, break weight, directionality, mirroring) are taken from the font's own Silf
+    // table, so that pseudo-glyph and mirror attributes keep naming real glyphs (C03 gid clause stays applicable)
+    unsigned ga[4] = {0, 0, 0, 0};
+    { auto sf = st.tables.find(mktag("Silf")); if (sf != st.tables.end()) { const Bytes &o = sf->second; if (o.size() >= 12) { u32 ver = be32(&o[0]); size_t pp = 4 + (ver >= 0x00030000 ? 4 : 0); if (pp + 8 <= o.size()) { size_t q = be32(&o[pp + 4]) + (ver >= 0x00030000 ? 8 : 0); if (q + 18 <= o.size()) for (int k = 0; k < 4; ++k) ga[k] = o[q + 14 + size_t(k)]; } } } }
+    for (int k = 0; k < 4; ++k) w8(s, ga[k]);
+    w8(s, 0); w8(s, 0);
+    w16(s, 0); w8(s, numUser); w8(s, 0); w8(s, rtl ? 2 : 1); w8(s, 0); w8(s, 0); w8(s, 0); w8(s, 0); w8(s, 0); w8(s, 0); w8(s, 0);
     w16(s, nglyphs - 1);
     const size_t o_passes = s.size(); for (unsigned i = 0; i <= np; ++i) w32(s, 0);
     w16(s, 0); w16(s, 0); w16(s, 0); w16(s, 0);
@@ -147,7 +188,7 @@ Plan gen_synth(u64 seed) {
     static const char *bases[] = {"grtest1gr", "general", "PigLatinBenchmark_v3", "underflow", "Padauk", "charis_r_gr"};
     std::string font = bases[r.below(6)];
     Op mf; mf.kind = "make_face"; mf.s = font; mf.a = {0, 0, i64(r.below(8)), 0, 0};
-    Fault f; f.kind = "OVR_SILF"; f.tag = "Silf"; f.a = {i64(r.next() >> 8)}; mf.faults.push_back(f);
+    Fault f; f.kind = "OVR_SILFPROG"; f.tag = "Silf"; gen_prog(r.next(), f.a); mf.faults.push_back(f);     // the rule program is explicit in the plan: replay files are self-describing and shrinkable
     p.ops.push_back(mf);
     if (r.chance(1, 2)) { Op o; o.kind = "make_font"; o.a = {0, i64(16 * (4 + r.below(60)))}; p.ops.push_back(o); }
     unsigned n = 3 + r.below(g_tier ? 12 : 6);
@@ -164,3 +205,26 @@ Plan gen_synth(u64 seed) {
 }
 
 } // namespace sim
+
+// debugging aid (not used by any check): why does the loader refuse a synthesised font?
+#include "inc/Face.h"
+#include "inc/TtfUtil.h"
+namespace sim {
+void synth_debug(u64 from, u64 to) {
+    std::map<std::pair<unsigned, unsigned>, unsigned> hist;
+    for (u64 i = from; i < to; ++i) {
+        Plan p = gen_synth(mix64(i, 5));
+        const Op &mf = p.ops[0];
+        Store st; st.tables = g_corpus.find(mf.s)->tables;
+        silf_override(st, mf.faults[0]);
+        gr_face_ops ops = {sizeof(gr_face_ops), store_get_table, store_release_table};
+        graphite2::Face f(&st, ops);
+        {
+            graphite2::Face::Table silf(f, graphite2::TtfUtil::Tag::Silf, 0x00050000);
+            bool ok = silf && f.readGlyphs(0) && f.readFeatures() && f.readGraphite(silf);
+            ++hist[std::make_pair(ok ? 0u : f.error(), ok ? 0u : f.error_context())];
+        }
+    }
+    for (auto &h : hist) printf("error=%u context=0x%x : %u\n", h.first.first, h.first.second, h.second);
+}
+}
